@@ -31,7 +31,10 @@ func (s *State) LoginEnable(pass string, cfg *program.Config) {
 		if !waitPrompt("enable", "#") {
 			// Enable password required.
 			// Use login password as enable password.
-			if !waitPrompt(pass, "#") {
+			// Send it only if device is asking for a password.
+			// Otherwise it would be echoed and logged as command.
+			if !strings.HasSuffix(strings.ToLower(out), "password:") ||
+				!waitPrompt(pass, "#") {
 				errlog.Abort("Authentication for enable mode failed")
 			}
 		}
